@@ -332,11 +332,7 @@ impl<T: Qcow2IoOps> Qcow2Dev<T> {
             #[cfg(qcow2_rs_verif)]
             crate::verif::probe("evict:dirty-rb-slices");
             log::warn!("add_rb_slice: cache eviction, slices {}", to_kill.len());
-            self.flush_cache_entries(to_kill).await?;
-            // A clean slice is taken to be on disk by every later flush
-            // (mappings are only written after the refcounts they depend on
-            // have been synced), so sync this write-back too.
-            self.call_fsync(0, usize::MAX, 0).await?;
+            self.flush_cache_entries(to_kill, false).await?;
         }
         Ok(entry)
     }
